@@ -30,6 +30,8 @@ ASSUMPTIONS = ["store state cloned (not replayed) into the twin world: write ord
 
 def check_case(ctx, case, record=True):
     spec = case["spec"]
+    if record:
+        ctx.count(*["world:" + c for c in regcommon.spec_classes(spec)])
     a = world.World(spec, registry=True)
     a.init_sources()
     ops = case["ops"]
